@@ -237,6 +237,9 @@ def _abs_list(name):
 ORDER = {"flat_group": ["segment_group", "parent_segment_group_requirement", "soll_is_required"],
          "flat_segment": ["segment", "segment_group_requirement", "soll_is_required"]}
 MAY = {"NotImplementedError": None, "SyntaxError": None, "Exception": None}
+# user code (evaluators, providers) is modelled as raising `Exception` itself; the classes below can only come from the
+# code under verification (a local read before it was bound, a missing attribute ...) and are never acceptable
+BOOKKEEPING = ["UnboundLocalError", "NameError", "AttributeError", "IndexError"]
 
 
 def _groups(ex, st, name, i=None):
@@ -259,6 +262,7 @@ class ValidateSegmentGroup:
              dict(segment_group=_level("SegmentGroup", segment_groups=Const(None), segments=Const(None)),
                   parent_segment_group_requirement=PARENT, soll_is_required=Bool())]
     raises = MAY
+    never_raises = BOOKKEEPING
     hook = _abs_list("flat_group")
 
     def post_flat(segment_group, parent_segment_group_requirement, soll_is_required, result):
@@ -274,6 +278,7 @@ class ValidateSegment:
     params = dict(segment=_level("Segment", data_elements=SeqOf(_any_element)), segment_group_requirement=PARENT,
                   soll_is_required=Bool())
     raises = MAY
+    never_raises = BOOKKEEPING
     hook = _abs_list("flat_segment")
 
     def post_flat(segment, segment_group_requirement, soll_is_required, result):
@@ -287,6 +292,7 @@ class ValidateDeep:
     call_native = _vr.make_call_native("validate_deep_anwendungshandbuch")
     params = dict(deep_ahb=Inst("DeepAnwendungshandbuch", lines=SeqOf(_group_leaf)), soll_is_required=Bool())
     raises = MAY
+    never_raises = BOOKKEEPING
 
     def post_deep(deep_ahb, soll_is_required, result):
         return result == deep(deep_ahb.lines, soll_is_required)
@@ -297,6 +303,7 @@ class ValidateSegmentLevel:
     cases = [dict(segment_level=_level("SegmentGroup"), soll_is_required=Bool()),
              dict(segment_level=_level("Segment"), soll_is_required=Bool())]
     raises = MAY
+    never_raises = BOOKKEEPING
 
     def post_dispatch(segment_level, soll_is_required, result):
         from maus.models.edifact_components import SegmentGroup
@@ -328,6 +335,7 @@ class ValidateDataElement:
     cases = [dict(data_element=_free_text(), segment_requirement=Enum(RVV, among=SEG3), soll_is_required=Bool()),
              dict(data_element=_value_pool(), segment_requirement=Enum(RVV, among=SEG3), soll_is_required=Bool())]
     raises = MAY
+    never_raises = BOOKKEEPING
     hook = _abs_value("element", ["data_element", "segment_requirement", "soll_is_required"])
 
     def post_dispatch(data_element, segment_requirement, soll_is_required, result):
@@ -345,6 +353,7 @@ class ValidateFreeText:
     params = dict(data_element=_free_text(), segment_requirement=Opt(Enum(RVV, among=["IS_REQUIRED", "IS_OPTIONAL"])),
                   soll_is_required=Bool())
     raises = MAY
+    never_raises = BOOKKEEPING
     hook = _abs_value("freetext", ["data_element", "segment_requirement", "soll_is_required"])
     clause_props = {"post_evaluated_with_own_input": ["C15"], "post_invalid_is_optional": ["C16"],
                     "post_status": ["C13", "C14"], "post_format_result_and_hints": ["C13", "C15"]}
@@ -384,6 +393,7 @@ class ValidateValuePool:
     call_native = _vr.make_call_native("validate_data_element_valuepool")
     params = dict(data_element=_value_pool(), segment_requirement=Enum(RVV, among=SEG3))
     raises = MAY
+    never_raises = BOOKKEEPING
     hook = _abs_value("valuepool", ["data_element", "segment_requirement"])
 
     def pre(data_element, segment_requirement):
